@@ -267,6 +267,14 @@ class RealDom:
 
     def libm(s, name, args):
         w = args[0].w; key = (name, w, len(args))
+        if name in ('x86_rcp', 'x86_rcp14'):
+            # hardware reciprocal approximation: (1/x)*(1+d), |d| <= 1.5*2^-12 (2^-14 for rcp14), d a fresh unknown per call.
+            # An identity that holds with exact division is then refutable (the solver picks d != 0) and the counterexample is
+            # replayed natively with the real instruction
+            s.cnt += 1; d = z3.Real(f'rcp_err!{s.cnt}'); lim = z3.Q(3, 2 ** 13) if name == 'x86_rcp' else z3.Q(1, 2 ** 14)
+            s.hyp += [d <= lim, d >= -lim]; s.libm_calls.add(name)
+            one = FV(w, r=z3.RealVal(1)); q = s.bin('fdiv', one, args[0])
+            return s.bin('fmul', q, FV(w, r=1 + d))
         f = s.ufs.get(key)
         if f is None:
             f = s.ufs[key] = z3.Function(f'libm_{name}_{w}', *([z3.RealSort()] * (len(args) + 1)))
